@@ -1,15 +1,15 @@
 #!/bin/sh
 # Run a check against ANOTHER checkout of gluon (a scratch worktree with a candidate change applied)
 # without touching /repo or the main build caches:
-#   tools/altcheck.sh /tmp/gluon-mut C08 [quick|thorough]
-# A copy of /verif (without .cache/.git) is kept in /verif/.cache/alt/verif with its own cargo target
+#   [ALT_SLOT=k] tools/altcheck.sh /tmp/gluon-mut C08 [quick|thorough]
+# A copy of /verif (without .cache/.git) is kept in /verif/.cache/alt<k>/verif with its own cargo target
 # and Coq build; harness/Cargo.toml paths and GLUON_REPO point at the given checkout.
 set -e
 ALT_REPO="$1"; PROP="$2"; TIER="${3:-quick}"
 [ -d "$ALT_REPO" ] || { echo "no such checkout: $ALT_REPO"; exit 2; }
-DST=/verif/.cache/alt/verif
+DST=/verif/.cache/alt${ALT_SLOT}/verif
 mkdir -p "$DST"
-rsync -a --delete --exclude .cache --exclude .git --exclude replays --exclude evidence /verif/ "$DST"/
+rsync -a --delete --exclude .cache --exclude .git --exclude replays --exclude evidence --exclude seeded /verif/ "$DST"/
 mkdir -p "$DST/evidence" "$DST/replays"
 sed -i "s#\"/repo#\"$ALT_REPO#g" "$DST/harness/Cargo.toml"
 sed -i "s#/verif/.cache/target#$DST/.cache/target#" "$DST/harness/.cargo/config.toml"
